@@ -297,6 +297,49 @@ def _decode_arg(v, slots, alias):
     return v
 
 
+META_PROBES = ['1/2/2021', '01/02/2021 1/2/21', '2021-03-04', '3-4-21x 12/11/10', '2021/1/2', '31/12/99 1999/12/31', '1-2-2021-3', 'abc ab xaby é.x.y a',
+               '192.168.1.1 256.1.1.1 1.2.3.4.5', '::1 1::2:3 1:2:3:4:5:6:7:8 fe80::', '0 7 12 123 1000 -5 +17 3.14 -0.5 1e3 00', 'ff 1A 0x1f zz 101 222',
+               'a@b.co x.y@mail.example.org', 'http://a.bc https://www.example.com/p?q=1', ' \t word  other\n', 'Ünï cödé ωορδ']
+
+
+def meta_fingerprint(result):
+    """Semantic value of one constructor call: what the pattern does on fixed probe texts (the emitted text itself may
+    legitimately order class members differently under another hash seed)."""
+    if result[0] != 'ok':
+        return list(result)
+    try:
+        rx = re.compile(result[1], dsl.FLAGS)
+    except (re.error, RecursionError, OverflowError):
+        return ['uncompilable']
+    return ['ok', rx.groups, [[m.span() for m in rx.finditer(t)][:12] for t in META_PROBES]]
+
+
+def run_meta_forward(case, es):
+    """The forward pass of a meta case (list arguments aliased and mutated as the program says) in module `es`."""
+    slots = [list(x) for x in case['slots']]
+    out = []
+    for st_ in case['steps']:
+        if st_[0] == 'mut':
+            lst = slots[st_[1] % len(slots)]
+            if st_[2] == 'append':
+                lst.append(st_[3])
+            elif st_[2] == 'pop' and len(lst) > 1:
+                lst.pop()
+            elif st_[2] == 'set0' and lst:
+                lst[0] = st_[3]
+            continue
+        _, cls, args, kwargs = st_
+        a = [_decode_arg(x, slots, True) for x in args]
+        kw = {k: _decode_arg(x, slots, True) for k, x in kwargs.items()}
+        try:
+            out.append(('ok', str(getattr(es, cls)(*a, **kw))))
+        except Exception as e:  # noqa: BLE001
+            if type(e).__name__ == 'CaseTimeout':
+                raise
+            out.append(('exc', type(e).__name__))
+    return out
+
+
 def check_meta(case, ctx):
     """Forward pass in the long-lived modules (which have seen every earlier case of this worker), with list arguments
     aliased and mutated as the program says; reference pass in freshly imported modules - per call (thorough) or per
@@ -349,6 +392,8 @@ def check_meta(case, ctx):
             if not findings.classify(ID, v.kind, case):
                 raise v
     ctx.count('meta_calls', len(calls))
+    if getattr(ctx, 'meta_cases', None) is not None and len(ctx.meta_cases) < ctx.max_meta_cases:
+        ctx.meta_cases[case_hash(case)] = (case, [meta_fingerprint(h) for (_, _, _, _, h) in calls])
     ctx.case(case, len(calls) >= 2, sample={'steps': [x[:2] for x in case['steps']][:8]} if len(calls) >= 2 else None)
 
 
@@ -401,7 +446,11 @@ def meta_strategy(fresh_per='call'):
     return st.fixed_dictionaries({
         'mode': st.just('meta'),
         'fresh_per': st.just(fresh_per),
-        'slots': st.tuples(st.lists(st.sampled_from(FORMATS), min_size=1, max_size=3), st.lists(st.sampled_from(['a', 'b', 'ab', 'c']), min_size=1, max_size=3)).map(list),
+        # format lists: arbitrary ones, and lists over a few prefix-related formats (repeats likely; with is_extensible the order of the
+        # alternatives is visible in what is matched)
+        'slots': st.tuples(st.one_of(st.lists(st.sampled_from(FORMATS), min_size=1, max_size=3),
+                                     st.lists(st.sampled_from(['d/m/yy', 'd/m/yyyy', 'dd/mm/yyyy', 'dd/mm/yy', 'd/mm/yyyy', 'yyyy/m/d', 'yy/m/d']), min_size=2, max_size=5)),
+                           st.lists(st.sampled_from(['a', 'b', 'ab', 'c']), min_size=1, max_size=3)).map(list),
         'steps': steps,
     })
 
@@ -484,6 +533,9 @@ def child_main():
     out = []
     for case in cases:
         try:
+            if case.get('mode') == 'meta':
+                out.append(json.loads(json.dumps([meta_fingerprint(r) for r in run_meta_forward(case, fresh_mod.essentials())])))
+                continue
             fps, _ = run_program(case, False)
             out.append(json.loads(json.dumps(fps, default=repr)))
         except Exception as e:  # noqa: BLE001
@@ -554,13 +606,18 @@ def run_shard(spec, ctx):
         run_enumeration(ctx, alike_cases(ctx.seed * 31 + ctx.shard_index), check_case, 'classes that print alike x partners x orders (6 shuffles)')
         return
     if spec.get('mode') == 'meta':
+        ctx.meta_cases = {}
+        ctx.max_meta_cases = 500 if spec['examples'] <= 700 else 2000
         run_hypothesis(ctx, meta_strategy(spec.get('fresh_per', 'call')), check_case, spec['examples'], label='meta')
-        return
-    ctx.programs = {}
-    ctx.max_programs = 400 if spec['examples'] <= 300 else 1500
-    run_hypothesis(ctx, strategy(), check_case, spec['examples'])
-    progs = list(ctx.programs.values())
-    ctx.programs = None
+        progs = list(ctx.meta_cases.values())
+        ctx.meta_cases = None
+        spec = dict(spec, replay_seeds=2 if ctx.tier == 'quick' else 4)
+    else:
+        ctx.programs = {}
+        ctx.max_programs = 400 if spec['examples'] <= 300 else 1500
+        run_hypothesis(ctx, strategy(), check_case, spec['examples'])
+        progs = list(ctx.programs.values())
+        ctx.programs = None
     if not progs:
         return
     verif = os.path.dirname(os.path.dirname(os.path.dirname(os.path.abspath(__file__))))
